@@ -7,24 +7,25 @@ From OmegaGen Require Import FixpointGen Gr1Gen.
 From OmegaGP Require Import TransducerModel CaSpec StreettNB1 StreettNB2.
 
 Section NB3.
-Variables nx ny : nat.
+Variables nc nx ny : nat.
 Variables E S : bdd.
 Variables moore plus_one : bool.
 Variables holds : list bdd.
-Variables R z : bdd.       (* the recurrence goal and the winning region *)
+Variable gl : bdd.   (* the goal of the attractor: R /\ cpre z in the solver *)
+Local Notation inr := (inr nc nx ny).
 
 Local Notation cp := (cpre_spec nx ny moore plus_one E S).
 
 (* what _attractor_under_assumptions records for one goal, abstractly:
    layer y = previous layer \/ traps of this round; each trap x for P satisfies
-   x <= (P /\ cpre x) \/ cpre(previous layer) \/ (R /\ cpre z) *)
+   x <= (P /\ cpre x) \/ cpre(previous layer) \/ gl, on valuations of the arena *)
 Inductive onion : bdd -> list bdd -> list (list bdd) -> Prop :=
 | onion_nil Yp : onion Yp [] []
 | onion_cons Yp y yr xk xr :
     length xk = length holds ->
     (forall s, y s = Yp s || existsb (fun x => x s) xk) ->
-    (forall x P, In (x, P) (combine xk holds) -> forall s, x s = true ->
-       (P s && cp x s) || cp Yp s || (R s && cp z s) = true) ->
+    (forall x P, In (x, P) (combine xk holds) -> forall s, inr s -> x s = true ->
+       (P s && cp x s) || cp Yp s || gl s = true) ->
     onion y yr xr -> onion Yp (y :: yr) (xk :: xr).
 
 Definition flat (xjk : list (list bdd)) : list (bdd * bdd) :=
@@ -69,14 +70,14 @@ Qed.
 (* the first layer containing s, and the first trap (in iteration order)
    containing s; that trap belongs to that layer *)
 Lemma onion_find Yp yj xjk s :
-  onion Yp yj xjk -> Yp s = false -> last yj Yp s = true ->
+  onion Yp yj xjk -> inr s -> Yp s = false -> last yj Yp s = true ->
   exists ys1 y ys2 f1 x P f2,
     yj = ys1 ++ y :: ys2 /\ y s = true /\ (forall y1, In y1 ys1 -> y1 s = false) /\
     flat xjk = f1 ++ (x, P) :: f2 /\ x s = true /\ (forall p, In p f1 -> fst p s = false) /\
     In P holds /\
-    (P s && cp x s) || cp (prev_layer Yp ys1) s || (R s && cp z s) = true.
+    (P s && cp x s) || cp (prev_layer Yp ys1) s || gl s = true.
 Proof.
-  intros Ho. induction Ho as [Yp|Yp y yr xk xr Hlen Hy Hx Ho IH]; intros HYp Hlast.
+  intros Ho Hs. induction Ho as [Yp|Yp y yr xk xr Hlen Hy Hx Ho IH]; intros HYp Hlast.
   - cbn [last] in Hlast. congruence.
   - destruct (y s) eqn:Eys.
     + (* first layer *)
@@ -88,7 +89,7 @@ Proof.
       split; [exact Hxs|]. split; [exact Ha1|].
       assert (Hin : In (x, P) (combine xk holds)) by (unfold bdd in *; rewrite Hc; apply in_elt).
       split; [apply (in_combine_r _ _ _ _ Hin)|].
-      unfold prev_layer. cbn [last]. apply (Hx x P Hin s Hxs).
+      unfold prev_layer. cbn [last]. apply (Hx x P Hin s Hs Hxs).
     + (* deeper layer *)
       assert (Hl : last yr y s = true).
       { destruct yr as [|y' yr']; [cbn [last] in Hlast; congruence|].
